@@ -14,6 +14,34 @@ inductive Ion
   | H_n | He_n | C_p1 | C_p2 | N_n | N_p1 | N_p2 | O_n | O_p1 | Ne_n | Ne_p1 | S_p1 | S_p2 | S_p3
   deriving DecidableEq, Repr, Inhabited
 
+/-- **Specification of the shell sums** (independent of the C++ switch, which `Gen.Verner.ionShells`
+mirrors): the valence-shell partial cross sections (Z, N, shell) whose sum is the photoionization
+cross section of each tracked ion — shells are numbered 1s=1, 2s=2, 2p=3, 3s=4, 3p=5; Z is the
+atomic number, N = Z − charge the number of electrons.  Outermost shell first; the next lower
+subshell is included for the ions where it opens below the 54.4 eV limit of the spectra or
+Verner's phfit2 sums it.  `Props.C18.coded_shells_are_spec` ties the C++ to this table. -/
+def ionShellsSpec : Ion → List (Nat × Nat × Nat)
+  | .H_n => [(1, 1, 1)]
+  | .He_n => [(2, 2, 1)]
+  | .C_p1 => [(6, 5, 3), (6, 5, 2)]
+  | .C_p2 => [(6, 4, 2)]
+  | .N_n => [(7, 7, 3), (7, 7, 2)]
+  | .N_p1 => [(7, 6, 3), (7, 6, 2)]
+  | .N_p2 => [(7, 5, 3)]
+  | .O_n => [(8, 8, 3), (8, 8, 2)]
+  | .O_p1 => [(8, 7, 3), (8, 7, 2)]
+  | .Ne_n => [(10, 10, 3), (10, 10, 2)]
+  | .Ne_p1 => [(10, 9, 3)]
+  | .S_p1 => [(16, 15, 5), (16, 15, 4)]
+  | .S_p2 => [(16, 14, 5), (16, 14, 4)]
+  | .S_p3 => [(16, 13, 5)]
+
+def allIons : List Ion :=
+  [.H_n, .He_n, .C_p1, .C_p2, .N_n, .N_p1, .N_p2, .O_n, .O_p1, .Ne_n, .Ne_p1, .S_p1, .S_p2, .S_p3]
+
+/-- every shell of the specification -/
+def usedShellsSpec : List (Nat × Nat × Nat) := allIons.flatMap ionShellsSpec
+
 /-- one line of `verner_A.dat` (Verner & Yakovlev 1995): `l` is the orbital quantum number of the
 line, written as a number because the constructor uses it in `0.5 * P - 5.5 - l` -/
 structure RawA (α : Type) where
